@@ -1,4 +1,6 @@
-import DFV.Lemmas.C20Plot
+import DFV.Lemmas.C20Default
+import DFV.Lemmas.C20Session
+import DFV.Lemmas.C20HeapLight
 /-!
 # C20 — matplotlib plots draw the field's own numbers at their physical coordinates
 
@@ -15,9 +17,18 @@ stated here as `PixelCovers` (imshow) and in the wording of `vector_at_centres` 
 * NaN pixels (`none`) and arrows with a NaN component are not drawn.
 
 Property theorems only; helper lemmas, the per-axis contract `AxisCovers`, the label predicate
-`EndsWithLabels` and the closed example fields `exS`, `exV`, `exOnes`, `exFine` (2×3 mesh on
-`[0,4]×[0,6]`, cell (0,2) invalid) used by the non-vacuity `example`s live in
-`DFV/Lemmas/C20{Si,Img,Plot}.lean`.
+`EndsWithLabels`, the hidden-cell description `keptBy` / `auxAt` / `srcIdx`, the input conditions
+`MultOk` / `AuxOk` / `MappingOk` / `ArrowsOk` / `ColourOk`, the frame predicates `Frame` /
+`HFld.On` and the closed example fields `exS`, `exV`, `exOnes`, `exFine` (2×3 mesh on
+`[0,4]×[0,6]`, cell (0,2) invalid), `exHeap`, `exHS`, `exHeapV`, `exHV` used by the non-vacuity
+`example`s live in `DFV/Lemmas/C20{Si,Img,Plot,Keep,Light,Accept,Default,Session,Heap,HeapRef,HeapLight}.lean`.
+
+Three models: `Model/C20.lean` (argument assembly on fields as VALUES), `Model/C20Session.lean`
+(`MplField.__call__` on a store of keyword-dictionary OBJECTS; histories of calls) and
+`Model/C20Heap.lean` (the plot functions on a HEAP of numpy buffers: copies, views, in-place
+writes).  The last two sections of this file prove that the object-level models behave like
+the value model: calls are independent of history, nothing that existed before a call is
+written, and the heap functions return what the value model returns.
 -/
 namespace DFV.C20
 open DFV
@@ -566,7 +577,9 @@ theorem normalise_unit (lo hi v w : Rat) (hlt : lo < hi) (h1 : lo ≤ v) (h2 : v
 
 /-! ## axis labels -/
 
-/-- **Labels.**  Every successful plot of every kind ends by setting the axis labels to
+/-- **Labels.**  Every successful plot of every kind — scalar, contour, vector, default, and
+lightness of fields with ANY number of components (the 2- and 3-component branches hand the
+multiplier of the call down to the final stage) — ends by setting the axis labels to
 `"<dim> (<prefix><unit>)"` per axis, where `<prefix>` is the SI prefix whose table entry is
 the multiplier in force (`EndsWithLabels`, in `Lemmas/C20Plot.lean`); in particular a plot can
 only succeed with a multiplier of the SI table. -/
@@ -575,7 +588,7 @@ theorem labels_eq (sqrtF : Rat → Rat) (f : Fld) (o : Opts) (calls : List PlotC
     (mplContour f o = .ok calls → ∃ m, setupMultiplier f o.mult = .ok m ∧ EndsWithLabels f.mesh.region m calls) ∧
     (mplVector f o = .ok calls → ∃ m, setupMultiplier f o.mult = .ok m ∧ EndsWithLabels f.mesh.region m calls) ∧
     (mplDefault f o = .ok calls → ∃ m, setupMultiplier f o.mult = .ok m ∧ EndsWithLabels f.mesh.region m calls) ∧
-    (f.nvdim = 1 → mplLightness sqrtF f o = .ok calls →
+    (mplLightness sqrtF f o = .ok calls →
       ∃ m, setupMultiplier f o.mult = .ok m ∧ EndsWithLabels f.mesh.region m calls) := by
   refine ⟨?_, ?_, ?_, ?_, ?_⟩
   · intro h
@@ -596,14 +609,11 @@ theorem labels_eq (sqrtF : Rat → Rat) (f : Fld) (o : Opts) (calls : List PlotC
     · rw [hc]; exact endsWithLabels_of _ m lab cs hl
     · rw [hc]; exact endsWithLabels_of _ m lab cv hl
     · rw [hc]; exact endsWithLabels_of _ m lab (cs ++ cv) hl
-  · intro h1 h
-    by_cases h2 : f.mesh.region.ndim = 2
-    · rw [lightness_scalar sqrtF f o h2 h1] at h
-      obtain ⟨m, _, _, _, lab, hm, _, _, _, hl, hc⟩ := lightCore_ok_inv f o _ _ _ calls h
-      exact ⟨m, hm, by rw [hc]; exact endsWithLabels_of _ m lab [_] hl⟩
-    · unfold mplLightness at h
-      rw [if_pos h2] at h
-      cases h
+  · intro h
+    obtain ⟨_, o', hue, dflt, hmult, _, hcore⟩ := mplLightness_core_inv sqrtF f o calls h
+    obtain ⟨m, _, _, _, lab, hm, _, _, _, hl, hc⟩ := lightCore_ok_inv f o' _ _ _ calls hcore
+    rw [hmult] at hm
+    exact ⟨m, hm, by rw [hc]; exact endsWithLabels_of _ m lab [_] hl⟩
 
 /-- Non-vacuity of `labels_eq`, `vector_*`, `contour_grid`, `lightness_*`: the example fields
 are plotted by every kind. -/
@@ -925,5 +935,725 @@ example : normalise 2 10 (0, 1) 2 = 0 ∧ normalise 2 10 (0, 1) 10 = 1 ∧ norma
 example : ∀ a, a < exS.mesh.region.ndim →
     p1000 (-8) ≤ exS.mesh.region.edge a ∧ exS.mesh.region.edge a < p1000 9 := by
   decide +kernel
+
+
+/-! ## hidden cells, every plot kind, every resolution of the filter
+
+`keptBy f flt [i, j]` (in `Lemmas/C20Keep.lean`) is the property's own description of a drawn
+cell: `f.valid[i, j]` and, when a `filter_field` `g` is given, `auxAt f g [i, j] ≠ 0`, where
+`auxAt` is `g`'s value in the cell itself when `g` has the cell counts of `f`, and otherwise
+`g`'s value in the cell `srcIdx g.mesh f.mesh [i, j] = [⌊(2i+1)·n'₀/(2n₀)⌋, ⌊(2j+1)·n'₁/(2n₁)⌋]`
+(`n` cell counts of `f`, `n'` of `g`).  `AuxGeom f g` asks for nothing when the counts agree
+and for well-formed meshes otherwise. -/
+
+/-- **Scalar plot: exactly the invalid-or-filtered cells are hidden**, for the default filter,
+an explicit filter on the same cell counts and an explicit filter on ANOTHER resolution alike:
+pixel `[j][i]` shows the value of cell `(i, j)` when the cell is valid and non-zero in the
+filter field (looked up in closed form, see above), and NaN otherwise.  Generalises
+`scalar_default_hides_invalid` and `scalar_filter_hides_zero_and_invalid`. -/
+theorem scalar_hides_exactly (f : Fld) (o : Opts) (calls : List PlotCall) (hinv : f.mesh.Inv)
+    (hgeo : ∀ g, o.filter = some g → AuxGeom f g) (h : mplScalar f o = .ok calls) :
+    ∃ img ext lab, calls = [.imshow img "lower" ext, lab] ∧
+      ∀ i j, i < f.mesh.nAt 0 → j < f.mesh.nAt 1 →
+        img.get [j, i] = if keptBy f o.filter [i, j] then some ((f.data.get [i, j]).getD 0 0) else none := by
+  obtain ⟨h2, _, m, _, hcore⟩ := mplScalar_ok_inv f o calls h
+  obtain ⟨ext, keep, lab, _, hk, _, hc⟩ := scalarCore_ok_inv f o m calls hcore
+  have hn : f.mesh.n.length = 2 := by rw [hinv.2.1, h2]
+  refine ⟨_, ext, lab, hc, fun i j hi hj => ?_⟩
+  rw [imgOf_get _ hn, filterKeep_keptBy f o h2 hgeo keep hk i j hi hj]
+
+/-- **Contour plot: exactly the invalid-or-filtered cells are hidden** (same statement for
+`Z[j][i]`), default filter, explicit filter, any resolution. -/
+theorem contour_hides_exactly (f : Fld) (o : Opts) (calls : List PlotCall) (hinv : f.mesh.Inv)
+    (hgeo : ∀ g, o.filter = some g → AuxGeom f g) (h : mplContour f o = .ok calls) :
+    ∃ X Y Z lab, calls = [.contour X Y Z, lab] ∧
+      ∀ i j, i < f.mesh.nAt 0 → j < f.mesh.nAt 1 →
+        Z.get [j, i] = if keptBy f o.filter [i, j] then some ((f.data.get [i, j]).getD 0 0) else none := by
+  obtain ⟨h2, _, m, keep, lab, _, hk, _, hc⟩ := mplContour_ok_inv f o calls h
+  have hn : f.mesh.n.length = 2 := by rw [hinv.2.1, h2]
+  refine ⟨_, _, _, lab, hc, fun i j hi hj => ?_⟩
+  rw [imgOf_get _ hn, filterKeep_keptBy f o h2 hgeo keep hk i j hi hj]
+
+/-- **What "zero in the filter field" means on another resolution.**  When the filter `g` lives
+on the same region as the plotted field `f` but has other cell counts, the value that decides
+cell `(i, j)` of `f` is `g`'s value in the cell of `g`'s mesh that CONTAINS the centre of cell
+`(i, j)` (C01's `indexAx` of the centre), and that centre lies inside `g`'s region.  (The same
+lookup serves colour and lightness fields, see `vector_colour_object`,
+`lightness_vector_values`.) -/
+theorem filter_lookup_contains (f g : Fld) (hf : f.mesh.Inv) (hg : g.mesh.Inv)
+    (hreg : f.mesh.region = g.mesh.region) (hn : g.mesh.n ≠ f.mesh.n) (h2 : f.mesh.region.ndim = 2)
+    (i j : Nat) (hi : i < f.mesh.nAt 0) (hj : j < f.mesh.nAt 1) :
+    auxAt f g [i, j] =
+      (g.data.get [g.mesh.indexAx 0 (f.mesh.centreAx 0 (i : Int)),
+                   g.mesh.indexAx 1 (f.mesh.centreAx 1 (j : Int))]).getD 0 0 ∧
+    g.mesh.region.lo 0 ≤ f.mesh.centreAx 0 (i : Int) ∧ f.mesh.centreAx 0 (i : Int) ≤ g.mesh.region.hi 0 ∧
+    g.mesh.region.lo 1 ≤ f.mesh.centreAx 1 (j : Int) ∧ f.mesh.centreAx 1 (j : Int) ≤ g.mesh.region.hi 1 := by
+  have hg2 : g.mesh.ndim = 2 := by unfold Mesh.ndim; rw [← hreg]; exact h2
+  have hf2 : f.mesh.ndim = 2 := h2
+  refine ⟨?_, ?_⟩
+  · unfold auxAt
+    rw [if_neg hn, srcIdx_contains g.mesh f.mesh hg hf hreg [i, j] (by
+      intro b hb
+      rcases (by omega : b = 0 ∨ b = 1) with rfl | rfl
+      · simpa using hi
+      · simpa using hj), hg2]
+    rfl
+  · have c0 := C07.centre_bounds f.mesh 0 i hi (C07.inv_cell_pos hf (by omega))
+    have c1 := C07.centre_bounds f.mesh 1 j hj (C07.inv_cell_pos hf (by omega))
+    rw [hreg] at c0 c1
+    exact ⟨c0.1, c0.2, c1.1, c1.2⟩
+
+/-- Non-vacuity of the three theorems above: the 4 × 3 filter `exFine` on the 2 × 3 example
+field satisfies `AuxGeom`, the plot succeeds, cell `(0, 0)` (valid, but the filter is zero in
+the filter cells 0 and 1 along x) is hidden and cell `(1, 1)` is drawn. -/
+example : AuxGeom exS exFine ∧ okB (mplScalar exS { filter := some exFine }) = true ∧
+    okB (mplContour exS { filter := some exFine }) = true ∧
+    keptBy exS (some exFine) [0, 0] = false ∧ keptBy exS (some exFine) [1, 1] = true ∧
+    exS.valid.get [0, 0] = true ∧ srcIdx exFine.mesh exS.mesh [1, 1] = [3, 1] :=
+  ⟨Or.inr ⟨mesh_inv_of_invB _ (by decide +kernel), exMesh_inv⟩, by decide +kernel, by decide +kernel,
+   by decide +kernel, by decide +kernel, by decide +kernel, by decide +kernel⟩
+
+/-- **Arrows are hidden exactly in invalid cells**: the arrow of cell `(i, j)` has a NaN
+component (is not drawn) if and only if the cell is invalid — whatever the mapping, the explicit
+labels, the colour request. -/
+theorem vector_hides_exactly_invalid (f : Fld) (o : Opts) (calls : List PlotCall) (hinv : f.mesh.Inv)
+    (h : mplVector f o = .ok calls) :
+    ∃ X Y U V C lab, calls = [.quiver X Y U V C, lab] ∧
+      ∀ i j, ((U.get [j, i]).isNone ∨ (V.get [j, i]).isNone) ↔ f.valid.get [i, j] = false := by
+  obtain ⟨h2, _, m, _, hcore⟩ := mplVector_ok_inv f o calls h
+  obtain ⟨keep, vd, ax, ay, C, lab, hk, _, _, _, hnn, _, _, hc⟩ := vectorCore_ok_inv f o m calls hcore
+  have hn : f.mesh.n.length = 2 := by rw [hinv.2.1, h2]
+  obtain ⟨keep', hk', hget⟩ := filterKeep_valid f h2
+  rw [hk'] at hk
+  injection hk with hk
+  subst hk
+  refine ⟨_, _, _, _, C, lab, hc, fun i j => ?_⟩
+  cases ax with
+  | none =>
+    cases ay with
+    | none => simp at hnn
+    | some ky =>
+      rw [arrowArr_none_get f hn, arrowArr_some_get f hn, hget]
+      cases f.valid.get [i, j] <;> simp
+  | some kx =>
+    rw [arrowArr_some_get f hn, hget]
+    cases ay with
+    | none =>
+      rw [arrowArr_none_get f hn]
+      cases f.valid.get [i, j] <;> simp
+    | some ky =>
+      rw [arrowArr_some_get f hn, hget]
+      cases f.valid.get [i, j] <;> simp
+
+/-! ## lightness plot of every number of components, object level -/
+
+/-- **Lightness plot, any number of components, default or explicit multiplier.**  Whenever
+`field.mpl.lightness` succeeds — for a 1-, 2- or 3-component field alike — it makes one `imshow`
+call with `origin="lower"` and extent `region / m` followed by the axis labels announcing the
+SAME `m`, where `m` is the multiplier of the call (`multiplier=` if given, else the region's
+default): the multiplier is handed down through the recursion of the 2- and 3-component
+branches.  The image has shape `(n₁, n₀)`; pixel `[j][i]` is opaque exactly when cell `(i, j)`
+is valid and non-zero in the filter in force (`keptBy`), transparent otherwise; and the pixel
+covering any physical point of the region under the imshow contract is the pixel of the cell
+containing that point. -/
+theorem lightness_any_nvdim (sqrtF : Rat → Rat) (f : Fld) (o : Opts) (calls : List PlotCall)
+    (hinv : f.mesh.Inv) (hgeo : ∀ g, o.filter = some g → AuxGeom f g)
+    (h : mplLightness sqrtF f o = .ok calls) :
+    ∃ m img lab, 0 < m ∧ setupMultiplier f o.mult = .ok m ∧
+      calls = [.imshowHL img "lower"
+        [f.mesh.region.lo 0 / m, f.mesh.region.hi 0 / m, f.mesh.region.lo 1 / m, f.mesh.region.hi 1 / m],
+        lab] ∧
+      EndsWithLabels f.mesh.region m calls ∧
+      img.shape = [f.mesh.nAt 1, f.mesh.nAt 0] ∧
+      (∀ i j, i < f.mesh.nAt 0 → j < f.mesh.nAt 1 →
+        (img.get [j, i]).isSome = keptBy f o.filter [i, j]) ∧
+      ∀ x y, f.mesh.region.lo 0 ≤ x * m ∧ x * m ≤ f.mesh.region.hi 0 →
+        f.mesh.region.lo 1 ≤ y * m ∧ y * m ≤ f.mesh.region.hi 1 →
+        PixelCovers (f.mesh.nAt 1) (f.mesh.nAt 0)
+          [f.mesh.region.lo 0 / m, f.mesh.region.hi 0 / m, f.mesh.region.lo 1 / m, f.mesh.region.hi 1 / m]
+          (f.mesh.indexAx 1 (y * m)) (f.mesh.indexAx 0 (x * m)) x y ∧
+        (∀ r c, r < f.mesh.nAt 1 → c < f.mesh.nAt 0 →
+          PixelCovers (f.mesh.nAt 1) (f.mesh.nAt 0)
+            [f.mesh.region.lo 0 / m, f.mesh.region.hi 0 / m, f.mesh.region.lo 1 / m, f.mesh.region.hi 1 / m]
+            r c x y →
+          r = f.mesh.indexAx 1 (y * m) ∧ c = f.mesh.indexAx 0 (x * m)) := by
+  obtain ⟨h2, o', hue, dflt, hmult, _, hcore⟩ := mplLightness_core_inv sqrtF f o calls h
+  obtain ⟨m, l, keep, img, lab, hpos, hm, _, hk, hc, hshape, hpix, hposn⟩ :=
+    lightness_pixels f o' hue dflt (filterOf f o) calls hinv h2 hcore
+  obtain ⟨m', _, _, _, lab', hm', _, _, _, hlab, hc'⟩ := lightCore_ok_inv f o' hue dflt _ calls hcore
+  have hmm : m' = m := by rw [hm] at hm'; injection hm' with hm'; exact hm'.symm
+  subst hmm
+  have hll : lab' = lab := by
+    rw [hc] at hc'
+    injection hc' with _ hc'
+    injection hc' with hc' _
+    exact hc'.symm
+  subst hll
+  rw [hmult] at hm
+  refine ⟨m', img, lab', hpos, hm, hc, ?_, hshape, ?_, hposn⟩
+  · rw [hc]
+    exact endsWithLabels_of f.mesh.region m' lab' [_] hlab
+  · intro i j hi hj
+    rw [hpix j i, ← filterKeep_keptBy f o h2 hgeo keep hk i j hi hj]
+    cases keep.get [i, j] <;> simp
+
+/-- **Lightness plot of 2- and 3-component fields: what every pixel carries.**  The hue token of
+pixel `[j][i]` is `angle(comp_y, comp_x)` of cell `(i, j)`, `comp_x` / `comp_y` being the
+components whose labels the mapping sends to the first / second spatial dimension; its
+lightness is `normalise_to_range` (over the whole array, onto `clim` or `(0, 1)`) of the
+lightness value `lv` of the cell, and `lv` is
+* the given `lightness_field`'s value in the cell (same counts) or in the cell at the same
+  relative position (`auxAt`, another resolution), if one was given;
+* `sqrt(Σ comp²)` — `field.norm` — for 2 components with nothing given;
+* the component that is NOT mapped to a plot axis for 3 components with nothing given.
+Hidden pixels are exactly the invalid-or-filtered cells. -/
+theorem lightness_vector_values (sqrtF : Rat → Rat) (f : Fld) (o : Opts) (calls : List PlotCall)
+    (hinv : f.mesh.Inv) (hnv : f.nvdim = 2 ∨ f.nvdim = 3)
+    (hgeoF : ∀ g, o.filter = some g → AuxGeom f g) (hgeoL : ∀ g, o.aux = some g → AuxGeom f g)
+    (h : mplLightness sqrtF f o = .ok calls) :
+    ∃ (cx cy : Nat) (lx ly : String) (vs : List String) (lv : List Nat → Rat) (img : NDA (Option (Hue × Rat))) (ext : List Rat) (lab : PlotCall),
+      (lx, f.mesh.region.dims.getD 0 "") ∈ f.vmap ∧ (ly, f.mesh.region.dims.getD 1 "") ∈ f.vmap ∧
+      f.vdims = some vs ∧ vs.getD cx "" = lx ∧ vs.getD cy "" = ly ∧
+      calls = [.imshowHL img "lower" ext, lab] ∧
+      ((∃ g, o.aux = some g ∧ g.nvdim = 1 ∧ g.mesh.region.ndim = 2 ∧
+          ∀ i j, i < f.mesh.nAt 0 → j < f.mesh.nAt 1 → lv [i, j] = auxAt f g [i, j]) ∨
+       (o.aux = none ∧ f.nvdim = 2 ∧ ∀ i j, lv [i, j] = sqrtF (normSq (f.data.get [i, j]))) ∨
+       (o.aux = none ∧ f.nvdim = 3 ∧ ∃ c, thirdComp f (inplaneVdims f) o.pick = .ok c ∧
+          (∀ l, leftover f (inplaneVdims f) = [l] → vs.getD c "" = l ∧ some l ∉ inplaneVdims f) ∧
+          ∀ i j, lv [i, j] = (f.data.get [i, j]).getD c 0)) ∧
+      ∀ i j, i < f.mesh.nAt 0 → j < f.mesh.nAt 1 →
+        img.get [j, i] =
+          if keptBy f o.filter [i, j] then
+            some (.angle ((f.data.get [i, j]).getD cy 0) ((f.data.get [i, j]).getD cx 0),
+                  normalise (ndaMin ⟨f.mesh.n, lv⟩) (ndaMax ⟨f.mesh.n, lv⟩) (o.clim.getD (0, 1)) (lv [i, j]))
+          else none := by
+  obtain ⟨h2, cx, cy, lx, ly, vs, L, hmx, hmy, hvs, hvx, hvy, hL, hcore⟩ :=
+    mplLightness_vec_inv sqrtF f o calls hnv h
+  obtain ⟨m, l, keep, img, lab, _, _, hl, hk, hc, _, hpix, _⟩ :=
+    lightness_pixels f _ _ _ _ calls hinv h2 hcore
+  obtain ⟨hL1, hL2, a, ha, hla⟩ := lightSrc_some_inv f L _ l hl
+  refine ⟨cx, cy, lx, ly, vs, l.get, img, _, lab, hmx, hmy, hvs, hvx, hvy, hc, ?_, ?_⟩
+  · cases hL with
+    | given _ hg =>
+      left
+      refine ⟨L, hg, hL1, hL2, fun i j hi hj => ?_⟩
+      rw [hla, auxOnMesh_at f L (hgeoL L hg) h2 hL2 a ha i j hi hj]
+    | norm hn h2' =>
+      right; left
+      refine ⟨hn, h2', fun i j => ?_⟩
+      rw [auxOnMesh_same f (normField sqrtF f) rfl] at ha
+      injection ha with ha
+      rw [hla, ← ha]
+      rfl
+    | third hn h3 hm c hc' =>
+      right; right
+      refine ⟨hn, h3, c, hc', ?_, fun i j => ?_⟩
+      · intro lb hleft
+        have hmem : lb ∈ leftover f (inplaneVdims f) := by rw [hleft]; simp
+        have hnot : some lb ∉ inplaneVdims f := by
+          unfold leftover at hmem
+          have := (List.mem_filter.mp hmem).2
+          simpa using this
+        cases hk' : f.vdimIndex lb with
+        | none =>
+          rw [thirdComp_single_none f _ lb o.pick hleft hk'] at hc'
+          cases hc'
+        | some k =>
+          rw [thirdComp_single f _ lb o.pick k hleft hk'] at hc'
+          injection hc' with hc'
+          subst hc'
+          obtain ⟨vs', hvs', hks⟩ := vdimIndex_spec f lb k hk'
+          rw [hvs] at hvs'
+          injection hvs' with hvs'
+          subst hvs'
+          exact ⟨hks, hnot⟩
+      · rw [auxOnMesh_same f (compField f c) rfl] at ha
+        injection ha with ha
+        rw [hla, ← ha]
+        rfl
+  · intro i j hi hj
+    rw [hpix j i, filterKeep_keptBy f o h2 hgeoF keep hk i j hi hj]
+    rfl
+
+/-- Non-vacuity: the 3-component example field has its lightness plot with an explicit
+multiplier (`k`), with a lightness field on another resolution, and the 2-component version of
+it (labels `a`, `b`) with the default norm. -/
+example : okB (mplLightness (fun q => q) exV { mult := some 1000 }) = true ∧
+    okB (mplLightness (fun q => q) exV { aux := some exFine, filter := some exOnes }) = true ∧
+    okB (mplLightness (fun q => q)
+      { exV with nvdim := 2, vdims := some ["a", "b"], vmap := [("a", "y"), ("b", "x")] } {}) = true ∧
+    AuxGeom exV exFine ∧ AuxGeom exV exOnes :=
+  ⟨by decide +kernel, by decide +kernel, by decide +kernel,
+   Or.inr ⟨mesh_inv_of_invB _ (by decide +kernel), exMesh_inv⟩, Or.inl rfl⟩
+
+/-! ## vector plot: the colour argument, object level -/
+
+/-- **Colour of the arrows, stated on the `quiver` call itself.**  For a successful
+`field.mpl.vector` with arrow labels `vd`: no colour array with `use_color=False`, and none for
+fields that do not have three components when no colour field is given; with a `color_field`
+`g` (one component, 2-d mesh) `C[j][i]` is `g`'s value in cell `(i, j)` — or, on another
+resolution, in the cell at the same relative position (`auxAt`, physically the cell containing
+the centre, `filter_lookup_contains`); for a 3-component field without colour field, `C[j][i]`
+is the component of cell `(i, j)` whose label is the one left over after removing the two arrow
+labels.  The colour array is never masked. -/
+theorem vector_colour_object (f : Fld) (o : Opts) (calls : List PlotCall) (hinv : f.mesh.Inv)
+    (hgeo : ∀ g, o.aux = some g → AuxGeom f g) (h : mplVector f o = .ok calls) :
+    ∃ vd X Y U V C lab, vectorVdims f o = .ok vd ∧ calls = [.quiver X Y U V C, lab] ∧
+      (o.useColor = false → C = none) ∧
+      (o.useColor = true → o.aux = none → f.nvdim ≠ 3 → C = none) ∧
+      (∀ g, o.useColor = true → o.aux = some g →
+        g.nvdim = 1 ∧ g.mesh.region.ndim = 2 ∧
+        ∃ arr, C = some arr ∧ arr.shape = [f.mesh.nAt 1, f.mesh.nAt 0] ∧
+          ∀ i j, i < f.mesh.nAt 0 → j < f.mesh.nAt 1 → arr.get [j, i] = auxAt f g [i, j]) ∧
+      (∀ l, o.useColor = true → o.aux = none → f.nvdim = 3 → leftover f vd = [l] →
+        ∃ arr k vs, C = some arr ∧ f.vdims = some vs ∧ vs.getD k "" = l ∧ some l ∉ vd ∧
+          arr.shape = [f.mesh.nAt 1, f.mesh.nAt 0] ∧
+          ∀ i j, arr.get [j, i] = (f.data.get [i, j]).getD k 0) := by
+  obtain ⟨h2, _, m, _, hcore⟩ := mplVector_ok_inv f o calls h
+  obtain ⟨keep, vd, ax, ay, C, lab, _, hvd, _, _, _, hcol, _, hc⟩ := vectorCore_ok_inv f o m calls hcore
+  have hn : f.mesh.n.length = 2 := by rw [hinv.2.1, h2]
+  refine ⟨vd, _, _, _, _, C, lab, hvd, hc, ?_, ?_, ?_, ?_⟩
+  · intro huse
+    rw [colourOf_off f o vd huse] at hcol
+    injection hcol with hcol
+    exact hcol.symm
+  · intro huse haux h3
+    unfold colourOf at hcol
+    rw [huse, haux] at hcol
+    simp only [Bool.not_true, Bool.false_eq_true, if_false, h3, ne_eq, not_false_eq_true, if_true] at hcol
+    injection hcol with hcol
+    exact hcol.symm
+  · intro g huse haux
+    obtain ⟨g1, g2, a, ha, hC⟩ := colourOf_aux_inv f g o vd huse haux C hcol
+    refine ⟨g1, g2, _, hC, by rw [colourArr_shape]; rfl, fun i j hi hj => ?_⟩
+    rw [colourArr_get _ hn, auxOnMesh_at f g (hgeo g haux) h2 g2 a ha i j hi hj]
+  · intro l huse haux h3 hleft
+    obtain ⟨arr, k, vs, e1, e2, e3, e4, e5, e6⟩ :=
+      vector_colour_third f o vd l hinv h2 huse haux h3 hleft C hcol
+    exact ⟨arr, k, vs, e1, e2, e3, e4, e5, fun i j => e6 j i⟩
+
+/-- **Component number 0 is a component like any other.**  When the label chosen for the
+horizontal (vertical) arrow direction — through the mapping or through `vdims=` — is the FIRST
+component label of the field, the arrows' horizontal (vertical) component is component number 0
+of every valid cell, not zeros: the code tests the label (`if vdims[0]`), never the index. -/
+theorem vector_component_zero (f : Fld) (o : Opts) (calls : List PlotCall) (hinv : f.mesh.Inv)
+    (vd : List (Option String)) (l : String) (rest : List String) (hvd : vectorVdims f o = .ok vd)
+    (hvs : f.vdims = some (l :: rest)) (hl : l ≠ "") (h : mplVector f o = .ok calls) :
+    ∃ X Y U V C lab, calls = [.quiver X Y U V C, lab] ∧
+      (vd.getD 0 none = some l → ∀ r c, U.get [r, c] =
+        if f.valid.get [c, r] then some ((f.data.get [c, r]).getD 0 0) else none) ∧
+      (vd.getD 1 none = some l → ∀ r c, V.get [r, c] =
+        if f.valid.get [c, r] then some ((f.data.get [c, r]).getD 0 0) else none) := by
+  obtain ⟨h2, _, m, _, hcore⟩ := mplVector_ok_inv f o calls h
+  obtain ⟨keep, vd', ax, ay, C, lab, hk, hvd', hax, hay, _, _, _, hc⟩ := vectorCore_ok_inv f o m calls hcore
+  rw [hvd] at hvd'
+  injection hvd' with hvd'
+  subst hvd'
+  have hn : f.mesh.n.length = 2 := by rw [hinv.2.1, h2]
+  obtain ⟨keep', hk', hget⟩ := filterKeep_valid f h2
+  rw [hk'] at hk
+  injection hk with hk
+  subst hk
+  have hidx : arrowIdx f (some l) = .ok (some 0) := by
+    unfold arrowIdx
+    simp only [hl, if_false, hvs]
+    unfold indexOf? indexOf?.go
+    simp
+  refine ⟨_, _, _, _, C, lab, hc, fun h0 r c => ?_, fun h1 r c => ?_⟩
+  · rw [h0, hidx] at hax
+    injection hax with hax
+    rw [← hax, arrowArr_some_get f hn, hget]
+  · rw [h1, hidx] at hay
+    injection hay with hay
+    rw [← hay, arrowArr_some_get f hn, hget]
+
+/-- Non-vacuity: the example vector field with the default colour (component `c`), with a colour
+field on 4 × 3 cells, with explicit labels whose FIRST entry is component number 0 (`a`), and
+with only a vertical component. -/
+example : okB (mplVector exV {}) = true ∧ okB (mplVector exV { aux := some exFine }) = true ∧
+    okB (mplVector exV { vdimsArg := some [some "a", some "c"] }) = true ∧
+    okB (mplVector exV { vdimsArg := some [none, some "a"], useColor := false }) = true ∧
+    arrowIdx exV (some "a") = .ok (some 0) := by
+  decide +kernel
+
+/-! ## default plot `field.mpl()`, object level -/
+
+/-- **Default plot, every number of components.**  A successful `field.mpl()` uses ONE multiplier
+`m` (the call's, else the region's default) for everything it draws and ends with the labels
+announcing `m`.  For 1 component it is the scalar image of the field; for 3 components the scalar
+image of the component `c` not mapped to a plot axis, followed by the vector plot; for 2
+components the vector plot alone.  The scalar image has `origin="lower"`, extent `region / m`,
+shape `(n₁, n₀)`, and pixel `[j][i]` shows component `c` of cell `(i, j)` when the cell is valid
+and non-zero in the `filter_field` of `scalar_kw` (default: the field's own validity), NaN
+otherwise; the vector part is `field.mpl.vector(multiplier=m, **vector_kw)`, to which
+`vector_at_centres`, `vector_components_through_mapping`, `vector_hides_exactly_invalid` and
+`vector_colour_object` apply. -/
+theorem default_plot_object (f : Fld) (o : Opts) (calls : List PlotCall) (hinv : f.mesh.Inv)
+    (hgeo : ∀ g, o.filter = some g → AuxGeom f g) (h : mplDefault f o = .ok calls) :
+    ∃ m lab, 0 < m ∧ setupMultiplier f o.mult = .ok m ∧ EndsWithLabels f.mesh.region m calls ∧
+      axisLabels f.mesh.region m = .ok lab ∧
+      ((f.nvdim = 1 ∧ ∃ img lab', calls = [.imshow img "lower"
+            [f.mesh.region.lo 0 / m, f.mesh.region.hi 0 / m, f.mesh.region.lo 1 / m, f.mesh.region.hi 1 / m],
+            lab', lab] ∧ img.shape = [f.mesh.nAt 1, f.mesh.nAt 0] ∧
+          ∀ i j, i < f.mesh.nAt 0 → j < f.mesh.nAt 1 →
+            img.get [j, i] = if keptBy f o.filter [i, j] then some ((f.data.get [i, j]).getD 0 0) else none) ∨
+       (f.nvdim = 2 ∧ ∃ cv, mplVector f { o with mult := some m } = .ok cv ∧ calls = cv ++ [lab]) ∨
+       (f.nvdim = 3 ∧ ∃ c img lab' cv, thirdComp f (inplaneVdims f) o.pick = .ok c ∧
+          mplVector f { o with mult := some m } = .ok cv ∧
+          calls = [.imshow img "lower"
+            [f.mesh.region.lo 0 / m, f.mesh.region.hi 0 / m, f.mesh.region.lo 1 / m, f.mesh.region.hi 1 / m],
+            lab'] ++ cv ++ [lab] ∧ img.shape = [f.mesh.nAt 1, f.mesh.nAt 0] ∧
+          ∀ i j, i < f.mesh.nAt 0 → j < f.mesh.nAt 1 →
+            img.get [j, i] = if keptBy f o.filter [i, j] then some ((f.data.get [i, j]).getD c 0) else none)) := by
+  obtain ⟨_, m, lab, hm, hl, hcases⟩ := mplDefault_ok_inv f o calls h
+  have hpos := axisLabels_pos _ _ _ hl
+  have hends : EndsWithLabels f.mesh.region m calls := by
+    rcases hcases with ⟨_, cs, _, hc⟩ | ⟨_, cv, _, hc⟩ | ⟨_, c, cs, cv, _, _, _, hc⟩
+    · rw [hc]; exact endsWithLabels_of _ m lab cs hl
+    · rw [hc]; exact endsWithLabels_of _ m lab cv hl
+    · rw [hc]; exact endsWithLabels_of _ m lab (cs ++ cv) hl
+  refine ⟨m, lab, hpos, hm, hends, hl, ?_⟩
+  rcases hcases with ⟨h1, cs, hcs, hc⟩ | ⟨h2, cv, hcv, hc⟩ | ⟨h3, c, cs, cv, hthird, hcs, hcv, hc⟩
+  · left
+    obtain ⟨_, img, lab', _, hcs', hshape, hpix⟩ :=
+      default_scalar_image f f o m 0 cs hinv rfl rfl (fun _ => rfl) hgeo hcs
+    exact ⟨h1, img, lab', by rw [hc, hcs']; rfl, hshape, hpix⟩
+  · right; left
+    exact ⟨h2, cv, hcv, hc⟩
+  · right; right
+    obtain ⟨_, img, lab', _, hcs', hshape, hpix⟩ :=
+      default_scalar_image (compField f c) f o m c cs hinv rfl rfl (fun _ => rfl) hgeo hcs
+    exact ⟨h3, c, img, lab', cv, hthird, hcv, by rw [hc, hcs'], hshape, hpix⟩
+
+/-! ## acceptance: well-formed inputs are plotted
+
+Input conditions (definitions in `Lemmas/C20Accept.lean`; none of them mentions the plot
+functions): `MultOk f mult` — an explicit multiplier is an entry of the SI table, the default
+needs every edge in `[1e-24, 1e27)`; `AuxOk f g` — a filter / colour / lightness field has one
+component, a 2-d mesh, and either the cell counts of `f` or a well-formed mesh and labels the
+`Field` constructor accepts (`resample` builds a field); `MappingOk f` — the components are
+labelled, every mapped label is a non-empty component label, both plot axes are mapped to;
+`ArrowsOk f o` — `MappingOk`, or `vdims=[lx, ly]` with two non-empty component labels;
+`ColourOk f o` — `use_color=False`, or an `AuxOk` colour field, or (no colour field) not three
+components, or three pairwise different labels. -/
+
+/-- **Scalar plot accepts** every field with at most one component on a well-formed 2-d mesh,
+with the default or an SI multiplier and the default or any acceptable filter (same or another
+resolution).  Discharges the success hypotheses of `scalar_total`. -/
+theorem scalar_accepts (f : Fld) (o : Opts) (hinv : f.mesh.Inv) (h2 : f.mesh.region.ndim = 2)
+    (hnv : f.nvdim ≤ 1) (hm : MultOk f o.mult) (hflt : ∀ g, o.filter = some g → AuxOk f g) :
+    ∃ calls, mplScalar f o = .ok calls := by
+  obtain ⟨m, pre, hm, hp⟩ := setupMultiplier_ok f hinv o.mult hm
+  obtain ⟨keep, hk⟩ := filterKeep_ok f o hinv h2 hflt
+  exact scalar_total f o hinv h2 hnv m hm pre hp keep hk
+
+/-- **Contour plot accepts** every one-component field on a well-formed 2-d mesh under the same
+conditions (matplotlib's own requirement of at least 2 × 2 cells is outside the model). -/
+theorem contour_accepts (f : Fld) (o : Opts) (hinv : f.mesh.Inv) (h2 : f.mesh.region.ndim = 2)
+    (hnv : f.nvdim = 1) (hm : MultOk f o.mult) (hflt : ∀ g, o.filter = some g → AuxOk f g) :
+    ∃ calls, mplContour f o = .ok calls := by
+  obtain ⟨m, pre, hm, hp⟩ := setupMultiplier_ok f hinv o.mult hm
+  obtain ⟨keep, hk⟩ := filterKeep_ok f o hinv h2 hflt
+  unfold mplContour
+  rw [if_neg (by simpa using h2), if_neg (by simpa using hnv)]
+  simp only [hm, hk, axisLabels, hp]
+  exact ⟨_, rfl⟩
+
+/-- **Vector plot accepts** every field on a well-formed 2-d mesh whose arrow labels and colour
+request are acceptable (`ArrowsOk`, `ColourOk`), with the default or an SI multiplier. -/
+theorem vector_accepts (f : Fld) (o : Opts) (hinv : f.mesh.Inv) (h2 : f.mesh.region.ndim = 2)
+    (hm : MultOk f o.mult) (harr : ArrowsOk f o) (hcol : ColourOk f o) :
+    ∃ calls, mplVector f o = .ok calls := by
+  obtain ⟨m, pre, hm, hp⟩ := setupMultiplier_ok f hinv o.mult hm
+  obtain ⟨hne, vd, cx, cy, hvd, hlen, hax, hay⟩ := arrows_ok f o harr
+  obtain ⟨C, hC⟩ := colourOf_ok f o vd hinv h2 hlen hcol
+  obtain ⟨keep, hk, _⟩ := filterKeep_valid f h2
+  unfold mplVector
+  rw [if_neg (by simpa using h2), hne]
+  simp only [Bool.false_eq_true, if_false, hm, vectorCore, hk, hvd, hax, hay, hC, axisLabels, hp,
+    Option.isNone_some, Bool.and_self]
+  exact ⟨_, rfl⟩
+
+/-- **Lightness plot accepts** every field with at most three components on a well-formed 2-d
+mesh: acceptable multiplier, filter and lightness field; for two and three components an
+acceptable mapping; for three components without lightness field three pairwise different
+labels (so that exactly one is left over). -/
+theorem lightness_accepts (sqrtF : Rat → Rat) (f : Fld) (o : Opts) (hinv : f.mesh.Inv)
+    (h2 : f.mesh.region.ndim = 2) (hnv : f.nvdim ≤ 3) (hm : MultOk f o.mult)
+    (hflt : ∀ g, o.filter = some g → AuxOk f g) (haux : ∀ g, o.aux = some g → AuxOk f g)
+    (hmap : 2 ≤ f.nvdim → MappingOk f)
+    (hthird : f.nvdim = 3 → o.aux = none → ∃ vs, f.vdims = some vs ∧ vs.length = 3 ∧ hasDup vs = false) :
+    ∃ calls, mplLightness sqrtF f o = .ok calls := by
+  have hk := filterKeep_ok f o hinv h2 hflt
+  unfold mplLightness
+  rw [if_neg (by simpa using h2)]
+  by_cases hn2 : f.nvdim = 2
+  · rw [if_pos hn2]
+    obtain ⟨xy, hxy⟩ := angleComps_ok f (hmap (by omega))
+    rw [hxy]
+    simp only []
+    refine lightCore_ok f { o with aux := some (o.aux.getD (normField sqrtF f)) } _ _ _ hinv h2 hm ?_ hk
+    intro g hg
+    cases ha : o.aux with
+    | none =>
+      rw [ha] at hg
+      simp only [Option.getD_none, Option.some.injEq] at hg
+      subst hg
+      exact ⟨rfl, h2, Or.inl rfl⟩
+    | some g' =>
+      rw [ha] at hg
+      simp only [Option.getD_some, Option.some.injEq] at hg
+      subst hg
+      exact haux _ ha
+  · rw [if_neg hn2]
+    by_cases hn3 : f.nvdim = 3
+    · rw [if_pos hn3]
+      obtain ⟨xy, hxy⟩ := angleComps_ok f (hmap (by omega))
+      cases ha : o.aux with
+      | some g =>
+        simp only [hxy]
+        exact lightCore_ok f o _ _ _ hinv h2 hm haux hk
+      | none =>
+        simp only []
+        obtain ⟨vs, hvs, hl, hnd⟩ := hthird hn3 ha
+        obtain ⟨c, hc⟩ := thirdComp_ok f vs hvs hl hnd (inplaneVdims f) rfl o.pick
+        obtain ⟨_, _, _, ⟨p, hp, _⟩, _⟩ := hmap (by omega)
+        have hne : f.vmap.isEmpty = false := by
+          have : f.vmap ≠ [] := List.ne_nil_of_mem hp
+          simp [this]
+        rw [hne]
+        simp only [Bool.false_eq_true, if_false, hc, hxy]
+        refine lightCore_ok f { o with aux := some (compField f c) } _ _ _ hinv h2 hm ?_ hk
+        intro g hg
+        simp only [Option.some.injEq] at hg
+        subst hg
+        exact ⟨rfl, h2, Or.inl rfl⟩
+    · rw [if_neg hn3, if_neg (by omega)]
+      exact lightCore_ok f o _ _ _ hinv h2 hm haux hk
+
+/-- **Default plot accepts** every field with one to three components on a well-formed 2-d mesh
+under the conditions of its parts. -/
+theorem default_accepts (f : Fld) (o : Opts) (hinv : f.mesh.Inv) (h2 : f.mesh.region.ndim = 2)
+    (hnv : 1 ≤ f.nvdim ∧ f.nvdim ≤ 3) (hm : MultOk f o.mult)
+    (hflt : ∀ g, o.filter = some g → AuxOk f g)
+    (hvec : 2 ≤ f.nvdim → ArrowsOk f o ∧ ColourOk f o)
+    (hthird : f.nvdim = 3 → ∃ vs, f.vdims = some vs ∧ vs.length = 3 ∧ hasDup vs = false) :
+    ∃ calls, mplDefault f o = .ok calls := by
+  obtain ⟨m, pre, hsm, hp⟩ := setupMultiplier_ok f hinv o.mult hm
+  have hm' : MultOk f (some m) := ⟨pre, rsiPrefix_some m pre hp⟩
+  have hfo : ∀ g, some (filterOf f o) = some g → AuxOk f g := by
+    intro g hg
+    injection hg with hg
+    subst hg
+    cases ho : o.filter with
+    | none => simp only [filterOf, ho, Option.getD_none]; exact ⟨rfl, h2, Or.inl rfl⟩
+    | some g' => simp only [filterOf, ho, Option.getD_some]; exact hflt g' ho
+  unfold mplDefault
+  rw [if_neg (by simpa using h2)]
+  simp only [hsm, axisLabels, hp]
+  by_cases h1 : f.nvdim = 1
+  · rw [if_pos h1]
+    obtain ⟨cs, hcs⟩ := scalar_accepts f { o with mult := some m, filter := some (filterOf f o) } hinv h2
+      (by omega) hm' hfo
+    rw [hcs]
+    exact ⟨_, rfl⟩
+  · rw [if_neg h1]
+    obtain ⟨harr, hcol⟩ := hvec (by omega)
+    obtain ⟨cv, hcv⟩ := vector_accepts f { o with mult := some m } hinv h2 hm' harr hcol
+    by_cases hn2 : f.nvdim = 2
+    · rw [if_pos hn2, hcv]
+      exact ⟨_, rfl⟩
+    · rw [if_neg hn2, if_pos (by omega)]
+      obtain ⟨vs, hvs, hl, hnd⟩ := hthird (by omega)
+      obtain ⟨c, hc⟩ := thirdComp_ok f vs hvs hl hnd (inplaneVdims f) rfl o.pick
+      obtain ⟨cs, hcs⟩ := scalar_accepts (compField f c)
+        { o with mult := some m, filter := some (filterOf f o) } hinv h2 (by show 1 ≤ 1; omega) hm' (by
+          intro g hg
+          exact hfo g hg)
+      rw [hc]
+      simp only [hcs, hcv]
+      exact ⟨_, rfl⟩
+
+/-- Non-vacuity of the acceptance theorems: the example fields meet the input conditions. -/
+example : MultOk exS none ∧ MultOk exV (some (1/1000)) ∧ MappingOk exV ∧ ArrowsOk exV {} ∧
+    ColourOk exV {} ∧ AuxOk exS exOnes ∧ AuxOk exS exFine ∧
+    (∃ vs, exV.vdims = some vs ∧ vs.length = 3 ∧ hasDup vs = false) := by
+  refine ⟨?_, ⟨"m", by decide +kernel⟩, ?_, ?_, ?_, ⟨rfl, rfl, Or.inl rfl⟩,
+    ⟨rfl, rfl, Or.inr ⟨mesh_inv_of_invB _ (by decide +kernel), by decide +kernel⟩⟩,
+    ⟨_, rfl, rfl, by decide +kernel⟩⟩
+  · show ∀ a, a < exS.mesh.region.ndim → _
+    decide +kernel
+  · exact ⟨["a", "b", "c"], rfl, by decide +kernel, by decide +kernel, by decide +kernel⟩
+  · exact ⟨["a", "b", "c"], rfl, by decide +kernel, by decide +kernel, by decide +kernel⟩
+  · exact Or.inr (Or.inr ⟨rfl, Or.inr ⟨_, rfl, rfl, by decide +kernel⟩⟩)
+
+/-! ## SI table, spelled out -/
+
+/-- **The whole SI table in decimal** (kernel evaluation over all 17 entries): `y` = 10⁻²⁴ …
+`n` = 10⁻⁹, `u` = 10⁻⁶, `m` = 10⁻³, no prefix = 1, `k` = 10³ … `Y` = 10²⁴, in this order. -/
+theorem si_table_decimal :
+    siTable = [("y", 1 / 10 ^ 24), ("z", 1 / 10 ^ 21), ("a", 1 / 10 ^ 18), ("f", 1 / 10 ^ 15),
+      ("p", 1 / 10 ^ 12), ("n", 1 / 10 ^ 9), ("u", 1 / 10 ^ 6), ("m", 1 / 10 ^ 3), ("", 1),
+      ("k", 10 ^ 3), ("M", 10 ^ 6), ("G", 10 ^ 9), ("T", 10 ^ 12), ("P", 10 ^ 15), ("E", 10 ^ 18),
+      ("Z", 10 ^ 21), ("Y", 10 ^ 24)] := by
+  decide +kernel
+
+/-- The prefix lookup used for the axis labels succeeds exactly on the table: `rsi_prefixes[m]`
+is `p` if and only if `(p, m)` is an entry; prefixes and multipliers are pairwise different
+(strictly increasing multipliers), so the announced prefix determines the multiplier. -/
+theorem si_prefix_lookup_iff (p : String) (m : Rat) :
+    (rsiPrefix? m = some p ↔ (p, m) ∈ siTable) ∧
+    siTable.Pairwise (fun a b => a.2 < b.2 ∧ a.1 ≠ b.1) := by
+  refine ⟨⟨rsiPrefix_some m p, si_table_inverse p m⟩, ?_⟩
+  decide +kernel
+
+/-! ## plotting is a pure function of its arguments: dictionaries, sessions, histories
+
+`Model/C20Session.lean` models `MplField.__call__` on a STORE of dictionary objects: the caller's
+`scalar_kw` / `vector_kw` are addresses, `{}` and `.copy()` allocate, `setdefault` writes in place.
+`callMpl s r` returns the new store and what is handed to matplotlib; `runSession` serves a
+history of requests on one store; `callSpec s r` is the specification: `mplDefault` of the field
+with the options read from the caller's dictionaries as they are at the call. -/
+
+/-- **One call is pure.**  `field.mpl(...)` writes only to dictionaries it allocated itself:
+every dictionary that existed before the call reads the same afterwards (in particular the
+caller's `scalar_kw` / `vector_kw` do not acquire `filter_field`, `use_color`, `colorbar`,
+`colorbar_label`), and what is handed to matplotlib is `callSpec`: a function of the field, the
+multiplier and the CONTENTS of the two dictionaries at the time of the call, with the defaults
+`filter_field = field._valid_as_field` and `use_color = False` filled in per call. -/
+theorem call_is_pure (s : Store) (r : Req) (hv : ∀ a, r.vkw = some a → a < s.length) :
+    (∀ a, a < s.length → (callMpl s r).1.read a = s.read a) ∧ s.length ≤ (callMpl s r).1.length ∧
+    (callMpl s r).2 = callSpec s r :=
+  ⟨(callMpl_frame s r).2, (callMpl_frame s r).1, callMpl_spec s r hv⟩
+
+/-- **Every call of a history is independent of the earlier calls** (induction over histories of
+any length).  If the requests only refer to dictionaries the caller made before the session,
+then the `k`-th answer of the session is what the `k`-th request gets on its own (`callSpec` on
+the INITIAL store), there is one answer per request, and after the session all the caller's
+dictionaries read as before. -/
+theorem session_calls_independent (s : Store) (rs : List Req) (hv : ReqsValid s.length rs) :
+    (runSession s rs).2 = rs.map (callSpec s) ∧
+    (∀ a, a < s.length → (runSession s rs).1.read a = s.read a) := by
+  obtain ⟨h1, _, h3⟩ := runSession_spec s rs hv s (Nat.le_refl _) (fun _ _ => rfl)
+  exact ⟨h1, h3⟩
+
+/-- **The default keyword arguments do not depend on history.**  A plain `field.mpl()` (no
+dictionaries, any multiplier) issued after ANY history of earlier calls — on other fields, with
+other filters, colour fields, `use_color` settings — hands over exactly the default plot of
+THIS field: filtered by its own validity, arrows uncoloured. -/
+theorem default_kwargs_per_call (s : Store) (hist : List Req) (f : Fld) (mult : Option Rat) (pick : Nat)
+    (hv : ReqsValid s.length hist) :
+    (runSession s (hist ++ [{ field := f, mult := mult, pick := pick }])).2.getLast? =
+      some (mplDefault f { mult := mult, useColor := false, pick := pick }) := by
+  have hv' : ReqsValid s.length (hist ++ [{ field := f, mult := mult, pick := pick }]) := by
+    intro r hr
+    rcases List.mem_append.mp hr with hr | hr
+    · exact hv r hr
+    · have : r = { field := f, mult := mult, pick := pick } := by simpa using hr
+      subst this
+      exact ⟨fun a ha => (nomatch ha), fun a ha => (nomatch ha)⟩
+  rw [(session_calls_independent s _ hv').1, List.map_append]
+  simp only [List.map_cons, List.map_nil, List.getLast?_append, List.getLast?_singleton, Option.some_or]
+  rfl
+
+/-- **Two histories, same answer.**  The answer to a request does not depend on which (valid)
+requests were served before it. -/
+theorem session_history_irrelevant (s : Store) (h1 h2 : List Req) (r : Req)
+    (hv1 : ReqsValid s.length (h1 ++ [r])) (hv2 : ReqsValid s.length (h2 ++ [r])) :
+    (runSession s (h1 ++ [r])).2.getLast? = (runSession s (h2 ++ [r])).2.getLast? := by
+  rw [(session_calls_independent s _ hv1).1, (session_calls_independent s _ hv2).1, List.map_append,
+    List.map_append]
+  simp only [List.map_cons, List.map_nil, List.getLast?_append, List.getLast?_singleton, Option.some_or]
+
+/-- Non-vacuity of the session theorems: a store with a `scalar_kw` holding a filter and a
+`vector_kw` asking for colour, three requests sharing them; the requests are valid, every call
+succeeds, and the caller's dictionaries keep their keys. -/
+example : ReqsValid 2
+      [{ field := exV, skw := some 0, vkw := some 1 }, { field := exS, skw := some 0 },
+       { field := exV }] ∧
+    (runSession [{ filter := some exOnes }, { useColor := some true }]
+      [{ field := exV, skw := some 0, vkw := some 1 }, { field := exS, skw := some 0 },
+       { field := exV }]).2.map okB = [true, true, true] ∧
+    ((runSession [{ filter := some exOnes }, { useColor := some true }]
+      [{ field := exV, skw := some 0, vkw := some 1 }, { field := exS, skw := some 0 },
+       { field := exV }]).1.take 2).map Kw.keys = [["filter_field"], ["use_color"]] := by
+  refine ⟨?_, by decide +kernel, by decide +kernel⟩
+  intro r hr
+  simp only [List.mem_cons, List.mem_nil_iff, or_false] at hr
+  rcases hr with rfl | rfl | rfl <;> exact ⟨by intro a ha; cases ha <;> omega, by intro a ha; cases ha <;> omega⟩
+
+
+/-! ## plotting never modifies the field: arrays as objects
+
+`Model/C20Heap.lean` puts the arrays on a HEAP of buffers: the plotted field, the filter and the
+colour field hold ADDRESSES (`HFld`), `array.copy()` and derived fields (`_valid_as_field`,
+`resample`) allocate, the two NaN writes of `_filter_values` happen in place at the address of
+`values`.  `scalarH` / `contourH` / `vectorH` return the heap after the call and what is handed
+to matplotlib.  `Frame h h'` (in `Lemmas/C20Heap.lean`): `h'` is at least as long as `h` and every
+buffer of `h` reads the same in `h'`; `HFld.On h g`: both arrays of `g` are buffers of `h`;
+`HFld.abs h g`: the field `g` as a value, read from the heap `h`. -/
+
+/-- **Plotting never modifies the field, its mesh or its validity** (`plot_pure`, for EVERY plot
+kind: scalar, contour, vector, lightness — of fields with any number of components — and the
+default plot `mpl()`, any filter / colour / lightness field, same or another resolution).  Every buffer that existed
+before the call — the field's `array` and `valid`, those of the `filter_field`, of the
+`color_field` / `lightness_field`, of any other field — holds the same entries after the call:
+the in-place NaN writes of `_filter_values` and the in-place normalisation of the lightness
+array land in buffers the call allocated itself (`values = array.copy()`, `lightness =
+lightness_field.array.reshape(n).copy()`, `rgb`).  Consequently every field on the heap, read as a
+value (mesh, components, array, validity, labels, mapping, unit), is the same before and after. -/
+theorem plot_pure (sqrtF : Rat → Rat) (h : AHeap) (f : HFld) (o : HOpts) (clim : Option (Rat × Rat)) :
+    Frame h (scalarH h f o).1 ∧ Frame h (contourH h f o).1 ∧ Frame h (vectorH h f o).1 ∧
+    Frame h (lightnessH sqrtF h f o clim).1 ∧ Frame h (defaultH h f o).1 ∧
+    ∀ g : HFld, g.On h →
+      g.abs (scalarH h f o).1 = g.abs h ∧ g.abs (contourH h f o).1 = g.abs h ∧
+      g.abs (vectorH h f o).1 = g.abs h ∧ g.abs (lightnessH sqrtF h f o clim).1 = g.abs h ∧
+      g.abs (defaultH h f o).1 = g.abs h :=
+  ⟨frame_scalarH h f o, frame_contourH h f o, frame_vectorH h f o, frame_lightnessH sqrtF h f o clim,
+   frame_defaultH h f o,
+   fun g hg => ⟨abs_frame _ _ g (frame_scalarH h f o) hg, abs_frame _ _ g (frame_contourH h f o) hg,
+     abs_frame _ _ g (frame_vectorH h f o) hg, abs_frame _ _ g (frame_lightnessH sqrtF h f o clim) hg,
+     abs_frame _ _ g (frame_defaultH h f o) hg⟩⟩
+
+/-- **The plot functions with in-place writes refine the value model.**  For a field whose arrays
+are on the heap and hold numbers (no NaN), on a well-formed mesh, with filter and colour /
+lightness field on the heap: what `scalar` (one component), `contour`, `vector` (no more labels
+than components) and `lightness` (any number of components; a given lightness field holds
+numbers) hand to matplotlib AFTER copying, masking / normalising in place and taking views is
+exactly what `mplScalar` / `mplContour` / `mplVector` / `mplLightness` compute from the field as a
+value — success or the same error.  All theorems about the value model therefore speak about the
+code-shaped heap functions. -/
+theorem heap_plots_refine (sqrtF : Rat → Rat) (h : AHeap) (f : HFld) (o : HOpts) (clim : Option (Rat × Rat))
+    (hinv : f.mesh.Inv) (hf : f.On h)
+    (hnum : ∀ i, (h.buf f.arr i).isSome) (hflt : ∀ g, o.filter = some g → g.On h)
+    (haux : ∀ g, o.aux = some g → g.On h) :
+    (f.nvdim = 1 → (scalarH h f o).2 = mplScalar (f.abs h) (o.abs h)) ∧
+    (contourH h f o).2 = mplContour (f.abs h) (o.abs h) ∧
+    ((∀ vs, f.vdims = some vs → vs.length ≤ f.nvdim) →
+      (vectorH h f o).2 = mplVector (f.abs h) (o.abs h)) ∧
+    ((∀ g, o.aux = some g → ∀ i, (h.buf g.arr i).isSome) →
+      (lightnessH sqrtF h f o clim).2 = mplLightness sqrtF (f.abs h) { o.abs h with clim := clim }) :=
+  ⟨fun hnv => scalarH_refines h f o hinv hf hnum hflt hnv, contourH_refines h f o hinv hf hnum hflt,
+   fun hlab => vectorH_refines h f o hinv hf hnum hflt haux hlab,
+   fun hn => lightnessH_refines sqrtF h f o clim hinv hf hflt (fun g hg => ⟨haux g hg, hn g hg⟩)⟩
+
+/-- Non-vacuity of `plot_pure` / `heap_plots_refine`: the example fields with their arrays on a
+heap of two buffers; the calls succeed, allocate their own buffers (`values`, and the two arrays
+of `_valid_as_field`) and leave the two input buffers alone. -/
+example : exHS.On exHeap ∧ (∀ i, (exHeap.buf exHS.arr i).isSome) ∧ exHV.On exHeapV ∧
+    (∀ i, (exHeapV.buf exHV.arr i).isSome) ∧ (∀ vs, exHV.vdims = some vs → vs.length ≤ exHV.nvdim) ∧
+    okB (scalarH exHeap exHS {}).2 = true ∧ (scalarH exHeap exHS {}).1.length = 5 ∧
+    okB (contourH exHeap exHS {}).2 = true ∧ okB (vectorH exHeapV exHV {}).2 = true ∧
+    (vectorH exHeapV exHV {}).1.length = 5 ∧
+    okB (lightnessH (fun q => q) exHeapV exHV {} none).2 = true ∧
+    okB (lightnessH (fun q => q) exHeap exHS { aux := some exHS } none).2 = true ∧
+    okB (defaultH exHeapV exHV { useColor := false }).2 = true ∧ okB (defaultH exHeap exHS {}).2 = true := by
+  refine ⟨⟨by decide, by decide⟩, fun _ => rfl, ⟨by decide, by decide⟩, fun _ => rfl, ?_, by decide +kernel, by decide +kernel,
+    by decide +kernel, by decide +kernel, by decide +kernel, by decide +kernel, by decide +kernel,
+    by decide +kernel, by decide +kernel⟩
+  intro vs hvs
+  injection hvs with hvs
+  subst hvs
+  decide
 
 end DFV.C20
